@@ -20,6 +20,7 @@ package results
 import (
 	"bufio"
 	"fmt"
+	"math"
 	"os"
 	"sort"
 )
@@ -90,6 +91,9 @@ func readFileLines(filename string, startLine, endLine int) (string, error) {
 	defer f.Close()
 
 	scanner := bufio.NewScanner(f)
+	// The default limit of 64 KiB per line makes Scan stop at the first longer
+	// line (minified sources, generated files); allow lines of any length.
+	scanner.Buffer(make([]byte, 0, bufio.MaxScanTokenSize), math.MaxInt32)
 	lines := ""
 	i := 0
 	for scanner.Scan() {
@@ -100,6 +104,9 @@ func readFileLines(filename string, startLine, endLine int) (string, error) {
 			break
 		}
 		lines += scanner.Text() + "\n"
+	}
+	if err := scanner.Err(); err != nil {
+		return "", err
 	}
 	if i < endLine {
 		return "", fmt.Errorf(
